@@ -49,6 +49,7 @@ type Recipe struct {
 	P1   int    `json:"p1,omitempty"`
 	P2   int    `json:"p2,omitempty"`
 	Kind2 int   `json:"kind2,omitempty"` // KMixed: second kind
+	Edge  int   `json:"edge,omitempty"`  // edge decoration applied after expansion (see applyEdge)
 	Raw  []byte `json:"raw,omitempty"`   // explicit bytes override everything
 }
 
@@ -60,7 +61,7 @@ func (r Recipe) String() string {
 	if r.Kind >= 0 && r.Kind < NKinds {
 		k = KindNames[r.Kind]
 	}
-	return fmt.Sprintf("%s[len=%d seed=%d p1=%d p2=%d]", k, r.Len, r.Seed, r.P1, r.P2)
+	return fmt.Sprintf("%s[len=%d seed=%d p1=%d p2=%d edge=%d]", k, r.Len, r.Seed, r.P1, r.P2, r.Edge)
 }
 
 // splitmix64 PRNG: deterministic expansion of the rapid-drawn seed.
@@ -101,6 +102,7 @@ func (rc Recipe) Expand() []byte {
 	}
 	b := make([]byte, n)
 	expandInto(b, rc.Kind, rc.Seed, rc.P1, rc.P2)
+	defer applyEdge(b, rc.Edge)
 	if rc.Kind == KMixed {
 		// two kinds with a seam at P1 per mille
 		seam := n * (rc.P1 % 1001) / 1000
@@ -109,6 +111,51 @@ func (rc Recipe) Expand() []byte {
 		expandInto(b[seam:], k2, rc.Seed^0x5555, 0, 0)
 	}
 	return b
+}
+
+// NEdges is the number of edge decorations.
+const NEdges = 12
+
+// applyEdge rewrites a few bytes at the block edges: blocks of a stream are cut at
+// arbitrary positions, so a block may start or end in the middle of a CR LF pair,
+// of a UTF-8 sequence, of a run, or of an instruction; detectors look at exactly
+// these bytes.
+func applyEdge(b []byte, edge int) {
+	n := len(b)
+	if n < 16 {
+		return
+	}
+	switch edge {
+	case 1:
+		b[0] = '\n'
+	case 2:
+		b[n-1] = '\r'
+	case 3:
+		b[0], b[n-1] = '\n', '\r'
+	case 4: // two-byte opcode prefix where the EXE scan window ends
+		b[n-9], b[n-8] = 0x0F, 0x38
+	case 5:
+		b[n-9], b[n-8] = 0x0F, 0x3A
+	case 6: // relative call/jump opcodes in the last bytes
+		b[n-5], b[n-4], b[n-1] = 0xE8, 0xE9, 0xE8
+	case 7: // truncated 3-byte UTF-8 sequence at the end, continuation bytes at the start
+		b[0], b[1] = 0x80, 0xBF
+		b[n-2], b[n-1] = 0xE4, 0xB8
+	case 8: // truncated 4-byte sequence
+		b[n-3], b[n-2], b[n-1] = 0xF0, 0x9F, 0x98
+	case 9: // run reaching the end
+		for i := n - 300; i < n; i++ {
+			if i >= 0 {
+				b[i] = b[n-1]
+			}
+		}
+	case 10: // run from the start
+		for i := 0; i < 300 && i < n; i++ {
+			b[i] = b[0]
+		}
+	case 11: // escape-like bytes at both ends
+		b[0], b[n-1] = 0xFF, 0xFF
+	}
 }
 
 func expandInto(b []byte, kind int, seed uint64, p1, p2 int) {
@@ -370,6 +417,9 @@ func DrawRecipe(t *rapid.T, maxLen int, label string) Recipe {
 	rc.P2 = rapid.IntRange(0, 255).Draw(t, label+".p2")
 	if rc.Kind == KMixed {
 		rc.Kind2 = rapid.IntRange(0, KMixed-1).Draw(t, label+".kind2")
+	}
+	if rapid.IntRange(0, 4).Draw(t, label+".edged") == 0 {
+		rc.Edge = rapid.IntRange(1, NEdges-1).Draw(t, label+".edge")
 	}
 	return rc
 }
